@@ -38,22 +38,39 @@ type Soft struct {
 	DeletedAt gorm.DeletedAt
 }
 
+// SoftZ: soft-delete model whose live rows carry a zero VALUE instead of NULL
+// (the automatic filter is deleted_at = '<time>', not IS NULL). Used in the
+// condition-free half only.
+type SoftZ struct {
+	ID        uint
+	Name      string
+	Age       int
+	DeletedAt gorm.DeletedAt `gorm:"zeroValue:1970-01-01 00:00:01"`
+}
+
 const (
 	mPlain = 0
 	mSoft  = 1
+	mSoftZ = 2
 )
 
-var tableOf = []string{"plains", "softs"}
+var tableOf = []string{"plains", "softs", "soft_zs"}
 
 func zeroPtr(m int) interface{} {
 	if m == mPlain {
 		return &Plain{}
+	}
+	if m == mSoftZ {
+		return &SoftZ{}
 	}
 	return &Soft{}
 }
 func zeroVal(m int) interface{} {
 	if m == mPlain {
 		return Plain{}
+	}
+	if m == mSoftZ {
+		return SoftZ{}
 	}
 	return Soft{}
 }
@@ -137,11 +154,17 @@ func zeroSlice(m int) interface{} {
 	if m == mPlain {
 		return &[]Plain{{}, {}}
 	}
+	if m == mSoftZ {
+		return &[]SoftZ{{}, {}}
+	}
 	return &[]Soft{{}, {}}
 }
 func zeroArray(m int) interface{} {
 	if m == mPlain {
 		return &[2]Plain{}
+	}
+	if m == mSoftZ {
+		return &[2]SoftZ{}
 	}
 	return &[2]Soft{}
 }
@@ -157,11 +180,17 @@ func withID(m int, id uint) interface{} {
 	if m == mPlain {
 		return &Plain{ID: id}
 	}
+	if m == mSoftZ {
+		return &SoftZ{ID: id}
+	}
 	return &Soft{ID: id}
 }
 func withName(m int, n string) interface{} {
 	if m == mPlain {
 		return &Plain{Name: n}
+	}
+	if m == mSoftZ {
+		return &SoftZ{Name: n}
 	}
 	return &Soft{Name: n}
 }
@@ -205,6 +234,9 @@ func updStruct(m int) interface{} {
 	if m == mPlain {
 		return Plain{Name: "changed"}
 	}
+	if m == mSoftZ {
+		return SoftZ{Name: "changed"}
+	}
 	return Soft{Name: "changed"}
 }
 
@@ -235,6 +267,9 @@ var condFinishers = []fin{
 	{Label: `Delete(&[]T{{ID:1},{ID:2}})`, IsDelete: true, Match: func(id int) bool { return id == 1 || id == 2 }, Run: func(db *gorm.DB, m int) *gorm.DB {
 		if m == mPlain {
 			return db.Delete(&[]Plain{{ID: 1}, {ID: 2}})
+		}
+		if m == mSoftZ {
+			return db.Delete(&[]SoftZ{{ID: 1}, {ID: 2}})
 		}
 		return db.Delete(&[]Soft{{ID: 1}, {ID: 2}})
 	}},
@@ -274,10 +309,10 @@ var aguName = []string{"off", "config", "session"}
 type Case struct {
 	Model    int    `json:"model"`
 	AGU      int    `json:"allow_global_update"`
-	Chain    []int  `json:"chain"`     // indexes into freeOps
-	Cond     int    `json:"cond"`      // index into realConds or -1
-	CondPos  int    `json:"cond_pos"`  // position of the real condition in the chain
-	Fin      int    `json:"finisher"`  // index into finishers (or condFinishers when FinCond)
+	Chain    []int  `json:"chain"`    // indexes into freeOps
+	Cond     int    `json:"cond"`     // index into realConds or -1
+	CondPos  int    `json:"cond_pos"` // position of the real condition in the chain
+	Fin      int    `json:"finisher"` // index into finishers (or condFinishers when FinCond)
 	FinCond  bool   `json:"finisher_has_condition"`
 	Readable string `json:"readable,omitempty"`
 }
@@ -304,24 +339,28 @@ func (c Case) String() string {
 }
 
 type worker struct {
-	envs [2]*h.Env // per AllowGlobalUpdate config value (off / config)
+	envs     [2]*h.Env // per AllowGlobalUpdate config value (off / config)
 	pristine [2]string
 }
 
 const schemaSQL = `
 CREATE TABLE plains (id integer primary key autoincrement, name text, age integer);
 CREATE TABLE softs (id integer primary key autoincrement, name text, age integer, deleted_at datetime);
+CREATE TABLE soft_zs (id integer primary key autoincrement, name text, age integer, deleted_at datetime);
 `
 
 func seed(e *h.Env) {
 	e.MustExec("DELETE FROM plains")
 	e.MustExec("DELETE FROM softs")
+	e.MustExec("DELETE FROM soft_zs")
 	for i := 1; i <= 3; i++ {
 		e.MustExec("INSERT INTO plains (id,name,age) VALUES (?,?,?)", i, fmt.Sprintf("n%d", i), 10*i)
 		e.MustExec("INSERT INTO softs (id,name,age,deleted_at) VALUES (?,?,?,NULL)", i, fmt.Sprintf("n%d", i), 10*i)
+		e.MustExec("INSERT INTO soft_zs (id,name,age,deleted_at) VALUES (?,?,?,'1970-01-01 00:00:01')", i, fmt.Sprintf("n%d", i), 10*i)
 	}
 	// soft-deleted twin of row 1
 	e.MustExec("INSERT INTO softs (id,name,age,deleted_at) VALUES (4,'n1',10,'2019-01-01 00:00:00+00:00')")
+	e.MustExec("INSERT INTO soft_zs (id,name,age,deleted_at) VALUES (4,'n1',10,'2019-01-01 00:00:00+00:00')")
 }
 
 func newWorker() *worker {
@@ -335,7 +374,7 @@ func newWorker() *worker {
 		}
 		seed(e)
 		w.envs[i] = e
-		w.pristine[i] = e.Dump("plains", "softs")
+		w.pristine[i] = e.Dump("plains", "softs", "soft_zs")
 	}
 	return w
 }
@@ -410,7 +449,7 @@ func (w *worker) exec(c Case) (res result) {
 	if l := e.Leaks(); l != "" {
 		res.panicMsg += " LEAK: " + l
 	}
-	res.dumpAfter = e.Dump("plains", "softs")
+	res.dumpAfter = e.Dump("plains", "softs", "soft_zs")
 	if res.dumpAfter != w.pristine[ei] {
 		res.changed = true
 		seed(e)
@@ -535,10 +574,11 @@ func check(run *mc.Run, w *worker, c Case, st *stats, distinct *mc.Set, samples 
 		hasCond = true
 	}
 	table := tableOf[c.Model]
-	other := tableOf[1-c.Model]
-	if !otherTableUnchanged(pr, res.dumpAfter, other) {
-		fail("a table that was not addressed changed")
-		return
+	for mi, other := range tableOf {
+		if mi != c.Model && !otherTableUnchanged(pr, res.dumpAfter, other) {
+			fail("a table that was not addressed changed")
+			return
+		}
 	}
 	switch {
 	case !hasCond && c.AGU == aguOff:
@@ -666,8 +706,11 @@ func main() {
 	}
 
 	var cases []Case
-	for m := 0; m < 2; m++ {
+	for m := 0; m < 3; m++ {
 		for agu := 0; agu < 3; agu++ {
+			if m == mSoftZ && agu != aguOff {
+				continue // zero-value soft delete: condition-free half with the guard on
+			}
 			for _, ch := range chainSet {
 				if agu != aguOff && (len(ch) > 2 || chainReuses(ch)) {
 					continue
@@ -676,7 +719,7 @@ func main() {
 					cases = append(cases, Case{Model: m, AGU: agu, Chain: ch, Cond: -1, Fin: fi})
 				}
 			}
-			if agu != aguOff {
+			if agu != aguOff || m == mSoftZ {
 				continue
 			}
 			// positive half: a real condition at every position
@@ -725,17 +768,17 @@ func main() {
 	}
 	run.Assume("SQLite dialect only; models without hooks/associations; Clauses(clause.Where{}) and other hand-built clause values are outside the alphabet")
 	run.Finish(map[string]interface{}{
-		"evaluations":         st.total,
-		"distinct_nontrivial": distinct.Len(),
-		"rule":                "every chain of <=K condition-free calls (K=2 over 30 calls incl. zero-key slice/array models and reuse of a handle that already ran a finisher via Session/WithContext, K=3 over 8 calls in quick; K=3/4 in thorough) x 9 update/delete finishers x {plain,soft-delete} x AllowGlobalUpdate{off,config,session}, plus every such chain (shorter) with one of 16 real conditions at every position and 11 finishers carrying an inline/model-key condition (incl. the key only in the Model() value of a Delete); distinct = distinct (chain,finisher,model[,condition,position]) programs whose oracle was fully evaluated (error identity, driver log, cell-level table diff)",
-		"samples":             samples.List(),
-		"exhaustive":          true,
+		"evaluations":          st.total,
+		"distinct_nontrivial":  distinct.Len(),
+		"rule":                 "every chain of <=K condition-free calls (K=2 over 30 calls incl. zero-key slice/array models and reuse of a handle that already ran a finisher via Session/WithContext, K=3 over 8 calls in quick; K=3/4 in thorough) x 9 update/delete finishers x {plain,soft-delete} x AllowGlobalUpdate{off,config,session}, plus every such chain (shorter) with one of 16 real conditions at every position and 11 finishers carrying an inline/model-key condition (incl. the key only in the Model() value of a Delete); distinct = distinct (chain,finisher,model[,condition,position]) programs whose oracle was fully evaluated (error identity, driver log, cell-level table diff)",
+		"samples":              samples.List(),
+		"exhaustive":           true,
 		"condition_free_cases": st.negative,
 		"condition_free_verified_rejected_without_statement": st.negOK,
-		"with_condition_cases":   st.positive,
-		"allow_global_cases":     st.agu,
-		"permitted_and_executed": st.posExecuted,
-		"free_calls":             len(freeOps),
-		"real_conditions":        len(realConds),
+		"with_condition_cases":                               st.positive,
+		"allow_global_cases":                                 st.agu,
+		"permitted_and_executed":                             st.posExecuted,
+		"free_calls":                                         len(freeOps),
+		"real_conditions":                                    len(realConds),
 	})
 }
